@@ -93,6 +93,39 @@ func serveOne(ln net.Listener, p hsPlan, out chan<- hsServerResult) {
 		hs = append(hs, hdr{p.AcName, rfc6455.AcceptKey(key)})
 	case "wrong":
 		hs = append(hs, hdr{p.AcName, rfc6455.AcceptKey(key + "x")})
+	case "swapcase", "flipone", "truncated", "nopad":
+		// near misses of the right value: base64 is case sensitive, every character counts
+		right := []byte(rfc6455.AcceptKey(key))
+		flip := func(c byte) byte {
+			switch {
+			case c >= 'a' && c <= 'z':
+				return c - 32
+			case c >= 'A' && c <= 'Z':
+				return c + 32
+			}
+			return c
+		}
+		switch p.Accept {
+		case "swapcase":
+			for i := range right {
+				right[i] = flip(right[i])
+			}
+		case "flipone":
+			for i := range right {
+				if flip(right[i]) != right[i] {
+					right[i] = flip(right[i])
+					break
+				}
+			}
+		case "truncated":
+			right = right[:len(right)-2]
+		case "nopad":
+			right = bytes.TrimRight(right, "=")
+		}
+		if string(right) == rfc6455.AcceptKey(key) {
+			right = append(right, 'x') // (no letter to flip: cannot happen with 27 base64 characters, but stay wrong)
+		}
+		hs = append(hs, hdr{p.AcName, string(right)})
 	}
 	if p.Extra {
 		hs = append(hs, hdr{"X-Served-By", "verif"}, hdr{"Date", "Thu, 01 Jan 2026 00:00:00 GMT"})
@@ -172,7 +205,7 @@ func genHsPlan(t *rapid.T, lbl string) hsPlan {
 	p.Status = rapid.SampledFrom([]string{"101 Switching Protocols", "101 Switching Protocols", "101 Switching Protocols", "101 Switching Protocols", "101 Web Socket Protocol Handshake", "200 OK", "400 Bad Request", "426 Upgrade Required"}).Draw(t, lbl+"status")
 	p.Upgrade = rapid.SampledFrom([]string{"websocket", "websocket", "websocket", "websocket", "WebSocket", "WEBSOCKET", "", "h2c", "websockets", "websocket2", "xwebsocket", "websocke", "WebSocket-Draft76"}).Draw(t, lbl+"upgrade")
 	p.UpName = rapid.SampledFrom([]string{"Upgrade", "upgrade", "UPGRADE"}).Draw(t, lbl+"upname")
-	p.Accept = rapid.SampledFrom([]string{"right", "right", "right", "right", "wrong", "missing"}).Draw(t, lbl+"accept")
+	p.Accept = rapid.SampledFrom([]string{"right", "right", "right", "right", "right", "right", "wrong", "missing", "swapcase", "flipone", "truncated", "nopad"}).Draw(t, lbl+"accept")
 	p.AcName = rapid.SampledFrom([]string{"Sec-WebSocket-Accept", "sec-websocket-accept", "Sec-Websocket-Accept", "SEC-WEBSOCKET-ACCEPT"}).Draw(t, lbl+"acname")
 	p.Sep = rapid.SliceOfN(rapid.SampledFrom([]string{" ", " ", "", "  ", "\t"}), 1, 4).Draw(t, lbl+"sep")
 	p.Order = rapid.Permutation([]int{0, 1, 2, 3, 4}).Draw(t, lbl+"order")
@@ -287,7 +320,7 @@ func readClientFrames(c net.Conn, n int) ([]rfc6455.Frame, error) {
 
 func TestC18_Handshake(t *testing.T) {
 	rec := evid.For("C18")
-	rec.SetRule("rapid: 1..3 handshakes on one Stream against a raw TCP server in the harness; response = status {101 (two reason phrases), 200, 400, 426} x Upgrade {websocket in 3 spellings, missing, h2c, near misses: websockets, websocket2, xwebsocket, websocke, WebSocket-Draft76} x Sec-WebSocket-Accept {right, wrong, missing} x header-name case x separator after the colon {' ', '', two spaces, tab, trailing space} x header order permutation x extra headers (incl. a 700..9000-byte cookie: heads larger than the client's initial 1 KiB buffer) x piggy-backed frames {none, 1..3 complete messages, last one cut after 1..6 bytes} x segmentation (1..3 cuts, 3 ms apart) x server close at byte j; blocking and asynchronous handshake; between handshakes the previous session may leave a queued Close(1002); oracle: request well-formed with a fresh 16-byte key and the caller's headers; success iff (101 and Upgrade: websocket and correct accept and response fully sent); failure => error, State()==Terminated and the server sees the client's end of the connection (not half-open); after success the messages read are exactly the piggy-backed ones followed by the later ones, and the first two frames the server receives are exactly the two the new session wrote; non-trivial = conforming response that is segmented or varied in case/whitespace with >=1 piggy-backed frame, or a second handshake on the same stream; distinct = hash of the plans")
+	rec.SetRule("rapid: 1..3 handshakes on one Stream against a raw TCP server in the harness; response = status {101 (two reason phrases), 200, 400, 426} x Upgrade {websocket in 3 spellings, missing, h2c, near misses: websockets, websocket2, xwebsocket, websocke, WebSocket-Draft76} x Sec-WebSocket-Accept {right, wrong, missing, near misses: letter case swapped, one letter's case flipped, truncated, padding removed} x header-name case x separator after the colon {' ', '', two spaces, tab, trailing space} x header order permutation x extra headers (incl. a 700..9000-byte cookie: heads larger than the client's initial 1 KiB buffer) x piggy-backed frames {none, 1..3 complete messages, last one cut after 1..6 bytes} x segmentation (1..3 cuts, 3 ms apart) x server close at byte j; blocking and asynchronous handshake; between handshakes the previous session may leave a queued Close(1002); oracle: request well-formed with a fresh 16-byte key and the caller's headers; success iff (101 and Upgrade: websocket and correct accept and response fully sent); failure => error, State()==Terminated and the server sees the client's end of the connection (not half-open); after success the messages read are exactly the piggy-backed ones followed by the later ones, and the first two frames the server receives are exactly the two the new session wrote; non-trivial = conforming response that is segmented or varied in case/whitespace with >=1 piggy-backed frame, or a second handshake on the same stream; distinct = hash of the plans")
 	segKnown := known.Listed("C18", "response-single-read")
 	vt.Check(t, 400, func(rt *rapid.T) {
 		ln, err := net.Listen("tcp", "127.0.0.1:0")
